@@ -414,38 +414,58 @@ func TestCheck(t *testing.T) {
 	rep.Bound("syncs_per_case", 3)
 	rep.Bound("modes", []string{"csa", "ssa", "upgrade"})
 
-	var list []report.Scenario
+	// A scenario name fixes its alphabet (so that a recorded violation
+	// replays in either tier): fields / meta use the quick alphabets,
+	// fields-all / fields-env / meta-labels / meta-annotations the full ones.
 	quickSp := space{mach: quickMachSets(), labels: reducedKeySets(), anns: reducedKeySets()}
-	for _, mode := range []string{"csa", "ssa", "upgrade"} {
-		mode := mode
-		add := func(name string, body func(sc string) func(r *explore.Run)) {
-			sc := mode + "/" + name
-			list = append(list, report.Scenario{Name: sc, Bound: 0, Wrap: report.Bubble(t), Body: body(sc)})
+	var rest []int
+	for _, a := range allKeySets() {
+		if !isReducedKeySet(a) {
+			rest = append(rest, a)
 		}
-		// The upgrade path differs from ssa only in the managed-fields
-		// handling: it gets the quick alphabets in both tiers.
-		if !report.Thorough() || mode == "upgrade" {
-			add("fields", func(sc string) func(r *explore.Run) { return fieldsBody(mode, quickSp.mach, false, rep, sc) })
-			if report.Thorough() {
-				add("fields-env", func(sc string) func(r *explore.Run) { return fieldsBody(mode, quickSp.mach, true, rep, sc) })
+	}
+	scenarios := func(thorough bool) []report.Scenario {
+		var list []report.Scenario
+		for _, mode := range []string{"csa", "ssa", "upgrade"} {
+			mode := mode
+			add := func(name string, body func(sc string) func(r *explore.Run)) {
+				sc := mode + "/" + name
+				list = append(list, report.Scenario{Name: sc, Bound: 0, Wrap: report.Bubble(t), Body: body(sc)})
 			}
-			add("meta", func(sc string) func(r *explore.Run) { return metaBody(mode, quickSp, rep, sc) })
-			continue
+			// The upgrade path differs from ssa only in the managed-fields
+			// handling: it gets the quick alphabets in both tiers.
+			if !thorough || mode == "upgrade" {
+				add("fields", func(sc string) func(r *explore.Run) { return fieldsBody(mode, quickSp.mach, false, rep, sc) })
+				if thorough {
+					add("fields-env", func(sc string) func(r *explore.Run) { return fieldsBody(mode, quickSp.mach, true, rep, sc) })
+				}
+				add("meta", func(sc string) func(r *explore.Run) { return metaBody(mode, quickSp, rep, sc) })
+				continue
+			}
+			add("fields-all", func(sc string) func(r *explore.Run) { return fieldsBody(mode, allMachSets(), false, rep, sc) })
+			add("fields-env", func(sc string) func(r *explore.Run) { return fieldsBody(mode, quickSp.mach, true, rep, sc) })
+			// Every label subset with the reduced annotation sets, and every
+			// annotation subset (not already covered) with the reduced label
+			// sets.
+			spL := space{labels: allKeySets(), anns: reducedKeySets()}
+			spA := space{labels: reducedKeySets(), anns: rest}
+			add("meta-labels", func(sc string) func(r *explore.Run) { return metaBody(mode, spL, rep, sc) })
+			add("meta-annotations", func(sc string) func(r *explore.Run) { return metaBody(mode, spA, rep, sc) })
 		}
-		add("fields", func(sc string) func(r *explore.Run) { return fieldsBody(mode, sp.mach, false, rep, sc) })
-		add("fields-env", func(sc string) func(r *explore.Run) { return fieldsBody(mode, quickSp.mach, true, rep, sc) })
-		// Every label subset with the reduced annotation sets, and every
-		// annotation subset (not already covered) with the reduced label sets.
-		var rest []int
-		for _, a := range allKeySets() {
-			if !isReducedKeySet(a) {
-				rest = append(rest, a)
+		return list
+	}
+	list := scenarios(report.Thorough())
+	if *report.ReplayF != "" {
+		// Replay looks a scenario up by name: offer those of both tiers.
+		seen := map[string]bool{}
+		for _, sc := range list {
+			seen[sc.Name] = true
+		}
+		for _, sc := range scenarios(!report.Thorough()) {
+			if !seen[sc.Name] {
+				list = append(list, sc)
 			}
 		}
-		spL := space{labels: allKeySets(), anns: reducedKeySets()}
-		spA := space{labels: reducedKeySets(), anns: rest}
-		add("meta-labels", func(sc string) func(r *explore.Run) { return metaBody(mode, spL, rep, sc) })
-		add("meta-annotations", func(sc string) func(r *explore.Run) { return metaBody(mode, spA, rep, sc) })
 	}
 	if report.Thorough() {
 		rep.Bound("label_sets", 1<<len(metaKeys))
